@@ -61,6 +61,17 @@ def plan_c01(case):
     return trace(case, ev)
 
 
+# ------------------------------------------------------------------------------------------- C03
+def plan_c03(case):
+    spec, obj, err = build(case)
+    if err:
+        return trace(case, [], err)
+    ev = [R.enc_event('der', obj), R.enc_event('cer', obj)]
+    for d, c in ((True, 0), (False, 0), (True, 2), (False, 3)):
+        ev.append(R.enc_event('ber', obj, d, c))
+    return trace(case, ev)
+
+
 # ------------------------------------------------------------------------------------------- C02
 PAIRS = {'der': ['der', 'cer', 'ber'], 'cer': ['cer', 'ber']}
 
@@ -652,6 +663,11 @@ PROPS = {
                                      thorough=dict(tagnums=[0, 30, 31, 128, 2 ** 32], maxstack=1)), sizes=True),
     'C02': dict(plan=plan_c02, clauses={'EncRefused', 'Rejected', 'NotAValue', 'ValueDiffers', 'RestDiffers', 'Crash', 'Disagree'},
                 cfg=lambda tier: cfg(tier, modes=['der', 'cer']), sizes=True),
+    'C03': dict(plan=plan_c03, clauses={'EncRefused', 'DerIdentity', 'CerCanonical', 'RefReads', 'OneTLV', 'Headers'},
+                cfg=lambda tier: cfg(tier, modes=['der', 'cer'],
+                                     quick=dict(tagnums=[0, 30, 31, 127, 128, 16383, 16384, 2 ** 32], classes=[1, 2, 3]),
+                                     thorough=dict(tagnums=[0, 1, 30, 31, 127, 128, 16383, 16384, 2 ** 32, 2 ** 64], classes=[1, 2, 3], pool=3)),
+                sizes=True),
     'C06': dict(plan=plan_c06, clauses={'NotUnderrun', 'Crash'},
                 cfg=lambda tier: cfg(tier, modes=['der', 'cer', 'ber_indef', 'ber_indef_c1', 'v_indefdef', 'v_long'],
                                      quick=dict(kinds=['bool', 'int', 'bits', 'octs', 'null', 'oid', 'real', 'utf8', 'enum'],
